@@ -583,6 +583,11 @@ class C06(HttpProp):
         for k in range(0, len(lens), per):
             ops = []
             c = 1
+            if (k // per) % 2 == 1:
+                # the client's very first version is uploaded on top of a version the server has never
+                # seen (a replica that already has history): it must come back under THAT parent
+                ops += [f"http POST av hyph=fresh hyph={c} history r:{33 + k % 900}", f"http GET gcv hyph=base:{c} hyph={c} absent e",
+                        "http GET gcv hyph=nil hyph=1 absent e"]
             for n in lens[k:k + per]:
                 kind = rng.choice(["r", "chunks"])
                 if kind == "chunks" and n >= 3:
